@@ -37,22 +37,26 @@ def uni2tex(text):
     txt = tuple(text)
     i = 0
     while i < len(txt):
-        char = text[i]
-        code = ord(char)
+        char = txt[i]
+        nextcode = ord(txt[i + 1]) if i + 1 < len(txt) else None
+        # canonical two-part decompositions only ("<compat> ..." and longer
+        # or shorter decompositions are left alone)
+        decomp = unicodedata.decomposition(char).split()
 
-        # combining marks
-        if unicodedata.category(char) in ("Mn", "Mc") and code in accents:
-            out += "\\%s{%s}" % (accents[code], txt[i + 1])
+        # base character followed by a combining mark
+        if nextcode in accents and not ord(char) in accents:
+            out += "\\%s{%s}" % (accents[nextcode], char)
             i += 1
         # precomposed characters
-        elif unicodedata.decomposition(char):
-            base, acc = unicodedata.decomposition(char).split()
-            acc = int(acc, 16)
-            base = int(base, 16)
-            if acc in accents:
-                out += "\\%s{%s}" % (accents[acc], chr(base))
-            else:
-                out += char
+        elif (
+            len(decomp) == 2
+            and not decomp[0].startswith("<")
+            and int(decomp[1], 16) in accents
+        ):
+            out += "\\%s{%s}" % (
+                accents[int(decomp[1], 16)],
+                chr(int(decomp[0], 16)),
+            )
         else:
             out += char
         i += 1
